@@ -1,7 +1,7 @@
 from vlib import runner, sysprops
 
 PARTIAL = [
-    'not-late clause (a call is failed by the first dispatch poll at or after its timer tick): monitor + exact correspondence only; the Lean statement C05_monitor_full_Statement needs completeness of the timer-wheel emulation (in progress: Props/C05DelayQ.lean)',
+    'not-late is proved at state level (Props/C05NotLate.lean: after a dispatch poll that goes idle no in-flight request has its timer tick at or before now, and the wake-up is armed no later than the earliest tick; in deadline terms C05_idle_deadline_tick) for op sequences whose clock stays below 2^35 ms; the monitor form (C05_monitor_bounded_Statement) needs the book/in-flight ownership coupling and is not proved; beyond the clock bound it is false (known finding timer-wheel-lag, C05_wheel_lag_witness)',
 ]
 
 
